@@ -1,21 +1,15 @@
 #!/bin/bash
-# tools/eval_all_seeds.sh "0 1 2": evaluates every seeded change at the given seeds (per property sequentially, properties in
-# parallel) and writes seeded/<id>/seeds.json {seed: rc/kind}; the last seed's verdict stays in meta.json
+# tools/eval_all_seeds.sh "0 1 2" [Cxx ...]: evaluates every seeded change (of the given properties, default all) at the given seeds
+# (per property sequentially, properties in parallel) and records the verdicts in seeded/<id>/seeds.json
 cd /verif
-SEEDS=${1:-"0 1 2"}
-ls seeded | sed 's/-.*//' | sort -u | xargs -P 5 -I{} sh -c '
+SEEDS=${1:-"0 1 2"}; shift
+PROPS=${@:-$(ls seeded | sed 's/-.*//' | sort -u)}
+export SEEDS
+echo $PROPS | tr ' ' '\n' | xargs -P 5 -I{} bash -c '
 for id in $(ls seeded | grep "^{}-"); do
-  for sd in '"$SEEDS"'; do
+  for sd in $SEEDS; do
     out=$(VERIF_SEED=$sd python3 tools/eval_seeded.py $id 2>&1 | tail -1)
     echo "$sd $out"
-    python3 - "$id" "$sd" "$out" <<PY
-import json, sys, os
-i, sd, out = sys.argv[1:4]
-p = f"/verif/seeded/{i}/seeds.json"
-d = json.load(open(p)) if os.path.exists(p) else {}
-d[sd] = ("caught: failing input" if ("rc 1" in out and "no-failing-input-found" not in out) else
-         "caught: no-failing-input-found" if "rc 1" in out else "MISSED")
-json.dump(d, open(p, "w"), indent=1, sort_keys=True)
-PY
+    python3 tools/record_seed.py "$id" "$sd" "$out"
   done
 done'
